@@ -86,6 +86,9 @@ func definedErrors() []defined {
 			continue
 		}
 		seen[e] = true
+		if e == context.DeadlineExceeded {
+			continue // covered by the explicit "deadline" forms (which know how to tell it from the caller's own timeout)
+		}
 		n, ok := exported[e]
 		if !ok {
 			n = "unlisted:" + slug(msg)
